@@ -1513,6 +1513,7 @@ def value_frame(ridx, cidx, layout_pick):
     """an int64 Frame with the given labels whose columns sit in blocks chosen by layout_pick (0: all 1-D, 1: one 2-D block,
     2: mixed) -- the value blocks reach the block walks as they are (get_block_match cuts them)"""
     import static_frame as sf
+    assert len(set(ridx)) == len(ridx) and len(set(cidx)) == len(cidx), (ridx, cidx)
     n, m = len(ridx), len(cidx)
     cols = [np.array([800 + 10 * j + i for i in range(n)], dtype=np.int64) for j in range(m)]
     lays = list(zoo.layouts_for((I8,) * m))
@@ -1540,7 +1541,8 @@ def assign_value_relations_cases(ctx):
                     for rel_c in (RELATIONS if ctx.tier == 'thorough' else dict.fromkeys((rel_r, 'reordered'))):
                         rot += 1
                         # ---- Frame value over the whole frame / a sub-selection, label forms
-                        for rk, ck in ((ALL, ALL), (K('list', [2, 0]), K('list', [m - 1, 0]))):
+                        # (a one-column frame has no two different positions: the sub-selection key is [0] then, never [0, 0])
+                        for rk, ck in ((ALL, ALL), (K('list', [2, 0]), K('list', [m - 1, 0] if m > 1 else [0]))):
                             rps, cps = rk.positions(nrows), ck.positions(m)
                             ridx = relate([rl[i] for i in rps], rel_r)
                             cidx = relate([cl[j] for j in sorted(cps)], rel_c)
